@@ -251,6 +251,20 @@ func vHarnessDenomsByOwner() {
 	for _, d := range res.Denoms {
 		vCheck(d.Owner == s.A, "C12: denoms by owner returns no denom of another owner")
 	}
+	// C09 / C20: the same query at the same height gives the same answer, item by item (an answer
+	// assembled by ranging over a Go map does not)
+	for i := 0; i < vRepeats(24); i++ {
+		again, rerr := s.k.DenomsByOwner(sdk.WrapSDKContext(s.ctx), &types.QueryDenomsByOwnerRequest{Owner: s.A})
+		vCheck(rerr == nil && len(again.Denoms) == len(res.Denoms), "C09: a repeated denoms-by-owner query at the same height returns the same number of items")
+		if rerr == nil && len(again.Denoms) == len(res.Denoms) {
+			for j := range res.Denoms {
+				vCheck(again.Denoms[j].Id == res.Denoms[j].Id, "C09: a repeated query at the same height returns the same items in the same order")
+			}
+		}
+	}
+	if want == 2 {
+		vCover("an owner with two denoms queried twice")
+	}
 	all, aerr := s.k.Denoms(sdk.WrapSDKContext(s.ctx), &types.QueryDenomsRequest{Pagination: &query.PageRequest{Limit: 10}})
 	vCheck(aerr == nil && len(all.Denoms) == 2, "C12: the full denom listing shows each denom once")
 }
